@@ -92,6 +92,7 @@ fn replay(rec: &Value) -> (String, Report) {
         "C11" | "C12" => c11::replay(&cmd, &case),
         "C13" | "C17" => c13::replay(&cmd, &case),
         "C13-pair" | "C17-pair" => c13::replay_pair(&cmd[..3], &case),
+        "C13-conc" | "C17-conc" => c13::replay_conc(&cmd[..3], &case),
         "C14" => c14::replay_c14(&case),
         "C14-multi" => c14::replay_c14_multi(&case),
         "C15" => c14::replay_c15(&case),
